@@ -279,3 +279,42 @@ func TestGvcAdapterSASLFeatureDataErased(t *testing.T) {
 	_, err, _ := gvcClient(gvcHeader+`<stream:features><mechanisms xmlns="urn:ietf:params:xml:ns:xmpp-sasl"><mechanism>PLAIN</mechanism></mechanisms><foo xmlns="urn:ietf:params:xml:ns:xmpp-sasl"/></stream:features>`, xmpp.Secure, xmpp.SASL("", "pw", sasl.Plain))
 	fmt.Printf("NOT-REPRODUCED SASL feature data: no panic, err=%v\n", err)
 }
+
+// Cancellation must reach negotiation I/O that starts after the context has
+// ended, not only an operation that happens to be blocked at that instant.
+// gvcSlowConn delays the start of every write a little, so that the write
+// begins after the watchdog has reacted to the (already ended) context.
+type gvcSlowConn struct{ net.Conn }
+
+func (c gvcSlowConn) Write(p []byte) (int, error) {
+	time.Sleep(200 * time.Millisecond)
+	return c.Conn.Write(p)
+}
+
+func TestGvcAdapterCancelledContextStillBlocks(t *testing.T) {
+	client, server := net.Pipe()
+	defer client.Close()
+	defer server.Close()
+	// the peer never reads and never writes
+	ctx, cancel := context.WithCancel(context.Background())
+	cancel()
+	done := make(chan error, 1)
+	go func() {
+		_, err := xmpp.NewSession(ctx, jid.MustParse("example.net"), jid.MustParse("me@example.net"), gvcSlowConn{client}, 0, xmpp.NewNegotiator(func(*xmpp.Session, *xmpp.StreamConfig) xmpp.StreamConfig {
+			return xmpp.StreamConfig{}
+		}))
+		done <- err
+	}()
+	select {
+	case err := <-done:
+		if err == nil {
+			fmt.Println("REPRODUCED negotiate: session established with a cancelled context and a silent peer")
+			t.Fail()
+			return
+		}
+		fmt.Printf("NOT-REPRODUCED negotiate: NewSession with a cancelled context returned %v\n", err)
+	case <-time.After(3 * time.Second):
+		fmt.Println("REPRODUCED negotiate: NewSession called with an already cancelled context on a net.Pipe whose peer never reads is still blocked in the stream header write after 3s: the write started 200ms after the cancellation, when the watchdog had already set the past deadline and cleared it again")
+		t.Fail()
+	}
+}
